@@ -43,12 +43,22 @@ int main(void) {
   g_i16(G_PROPATTR, a0); g_str1(G_PROPVALUE, v0); g_none(G_ENDEL);
   g_none(G_BOUNDARY); g_i16(G_LAYER, layer2); g_i16(G_DATATYPE, dtype2);
   g_rec(G_XY, GT_I32, 32); for (int i = 1; i < 4; i++) { g_u32((uint32_t)x[i]); g_u32((uint32_t)y[i]); } g_u32((uint32_t)x[1]); g_u32((uint32_t)y[1]); g_none(G_ENDEL);
+#elif SEQ == 5                /* TEXT carrying PATHTYPE and WIDTH (legal in a TEXT element), then a PATH with neither */
+  int32_t w = (int32_t)nd_range(1, 1000) * 2; ASSUME(x[2] != x[3]);
+  g_none(G_TEXT); g_i16(G_LAYER, layer); g_i16(G_TEXTTYPE, dtype); g_i16(G_PATHTYPE, 2); g_i32(G_WIDTH, (uint32_t)w); g_rec(G_XY, GT_I32, 8); g_u32((uint32_t)x[0]); g_u32((uint32_t)y[0]); g_str1(G_STRING, 's'); g_none(G_ENDEL);
+  g_none(G_PATH); g_i16(G_LAYER, layer2); g_i16(G_DATATYPE, dtype2); g_rec(G_XY, GT_I32, 16); g_u32((uint32_t)x[2]); g_u32((uint32_t)y[2]); g_u32((uint32_t)x[3]); g_u32((uint32_t)y[2]); g_none(G_ENDEL);
+#elif SEQ == 6                /* AREF 2 x 3 (COLROW + three corners), then a plain SREF: no array; target cell follows */
+  int32_t pc = (int32_t)nd_range(1, 1000), pr = (int32_t)nd_range(1, 1000);
+  g_none(G_AREF); g_str1(G_SNAME, 'D'); g_rec(G_COLROW, GT_I16, 4); g_u16(2); g_u16(3);
+  g_rec(G_XY, GT_I32, 24); g_u32((uint32_t)x[0]); g_u32((uint32_t)y[0]); g_u32((uint32_t)(x[0] + 2 * pc)); g_u32((uint32_t)y[0]); g_u32((uint32_t)x[0]); g_u32((uint32_t)(y[0] + 3 * pr)); g_none(G_ENDEL);
+  g_none(G_SREF); g_str1(G_SNAME, 'D'); g_rec(G_XY, GT_I32, 8); g_u32((uint32_t)x[1]); g_u32((uint32_t)y[1]); g_none(G_ENDEL);
+  g_cell_end(); g_cell_begin('D');
 #endif
   g_cell_end(); g_file_end();
   uint8_t fname[2] = {'f', 0}; uint32_t err = 0; Lib lib = {0};
   READ_GDS(&lib, fname, 0.0, 0.0, (void*)0, &err);
   CHECK(err == 0 && vf_open_count == 0, "loads, handle released");
-  CHECK(lib.f3.f1 == ((SEQ == 1 || SEQ == 4) ? 2 : 1), "cells");
+  CHECK(lib.f3.f1 == ((SEQ == 1 || SEQ == 4 || SEQ == 6) ? 2 : 1), "cells");
   Cell* c = lib_cell(&lib, 0);
 #if SEQ == 0 || SEQ == 4
   Cell* c2 = SEQ == 4 ? lib_cell(&lib, 1) : c;
@@ -72,6 +82,14 @@ int main(void) {
   CHECK(p0->f3 != 0 && p0->f0 == TAG(layer, dtype), "first polygon carries its property");
   CHECK(p1->f0 == TAG(layer2, dtype2) && p1->f1.f1 == 3 && ((double*)p1->f1.f2)[0] == (double)x[1], "second polygon: its own tag and vertices");
   CHECK(p1->f3 == 0, "second polygon: no properties");
+#elif SEQ == 5
+  CHECK(c->f5.f1 == 1 && c->f3.f1 == 1, "one label, one path"); FPath* p1 = ((FPath**)c->f3.f2)[0]; FElem* e1_ = p1->f1;
+  CHECK(e1_->f0 == TAG(layer2, dtype2) && p1->f0.f0.f1 == 2 && ((double*)p1->f0.f0.f2)[0] == (double)x[2], "the path: its own tag and points");
+  CHECK(e1_->f5 == 0 && ((double*)e1_->f1.f2)[0] == 0.0 && ((double*)e1_->f1.f2)[2] == 0.0, "the path: default path type and width 0, not the text element's");
+#elif SEQ == 6
+  CHECK(c->f2.f1 == 2, "two references"); Ref* r0 = ((Ref**)c->f2.f2)[0]; Ref* r1 = ((Ref**)c->f2.f2)[1]; Cell* t = lib_cell(&lib, 1);
+  CHECK(r0->f6.f0 == 1 && *(Cell**)&r0->f1 == t, "first reference: a rectangular array");
+  CHECK(r1->f0 == 0 && *(Cell**)&r1->f1 == t && VXD(r1->f2) == (double)x[1] && VYD(r1->f2) == (double)y[1] && r1->f6.f0 == 0, "second reference: resolved, its own origin, no repetition");
 #endif
   WITNESS_POINT();
   return 0;
